@@ -440,6 +440,101 @@ def r_fullscan(prog, R):
     r.info["list_walks"] = n
 
 
+_CNT_CALLS = ("ares_dns_record_rr_cnt", "ares_dns_rr_get_abin_cnt", "ares_dns_rr_get_opt_cnt")
+_CONVERT_CALLS = ("ares_malloc_data", "ares_malloc", "ares_malloc_zero", "ares_strdup", "ares_realloc")
+
+
+def r_skip(prog, R):
+    r = R.rule("R-C18-SKIP", "inside a counted conversion loop of a legacy parser an element is passed over only because of what kind of record it is (type / class / no record at that "
+               "index): no `continue` in front of the conversion depends on the element's value (its length, its content)", floor=6,
+               analysis="natural loops whose header compares an index with a record-API count; every conditional edge from the body straight to the loop's step, whose sibling edge "
+                        "still reaches an allocation of the body, must be guarded by atoms over ares_dns_rr_get_type / ares_dns_rr_get_class / the record pointer only")
+    n = 0
+    for f in sorted(prog.funcs.values(), key=lambda x: x.key):
+        if not (f.file.startswith("src/lib/legacy/ares_parse_") and f.file.endswith("_reply.c")):
+            continue
+        # locals that hold a type / class / record pointer
+        kindvars = set()
+        for b, i, el in f.elements():
+            srcs = []
+            if el["k"] == "decl":
+                srcs = [(v["n"], v.get("init")) for v in el["vars"] if v.get("init") is not None]
+            elif el["k"] == "asg" and el["e"]["op"] == "=" and strip(el["e"]["l"]).get("k") == "var":
+                srcs = [(strip(el["e"]["l"])["n"], el["e"].get("r"))]
+            for nm, rhs in srcs:
+                t = render(strip(rhs))
+                if any(x in t for x in ("ares_dns_rr_get_type", "ares_dns_rr_get_class", "ares_dns_record_rr_get", "ares_dns_get_opt_rr")):
+                    kindvars.add(nm)
+        cntvars = set()
+        for b, i, el in f.elements():
+            if el["k"] == "asg" and el["e"]["op"] == "=" and strip(el["e"]["l"]).get("k") == "var" and any(c in render(strip(el["e"].get("r"))) for c in _CNT_CALLS):
+                cntvars.add(strip(el["e"]["l"])["n"])
+            if el["k"] == "decl":
+                for v in el["vars"]:
+                    if v.get("init") is not None and any(c in render(strip(v["init"])) for c in _CNT_CALLS):
+                        cntvars.add(v["n"])
+        loops = f.natural_loops()
+        for h, body in sorted(loops.items()):
+            br = f.branch(h)
+            if not br:
+                continue
+            hdr_calls = [el["e"].get("callee") for el in f.blocks[h].els if el["k"] == "call"]
+            if not any(c in _CNT_CALLS for c in hdr_calls) and not any(c in render(br[0]) for c in _CNT_CALLS) and not any(
+                    is_var(strip(x), v_) for v_ in cntvars for c3, _ in atoms(br[0], True) for x in (c3.get("l"), c3.get("r")) if x is not None):
+                continue
+            latches = {u for u in body if h in f.blocks[u].succs and u != h}
+            grew = True
+            while grew:         # `continue` reaches the step through an empty block
+                grew = False
+                for u in body:
+                    if u not in latches and not f.blocks[u].els and not f.branch(u) and [x for x in f.blocks[u].succs if x is not None] and all(x in latches for x in f.blocks[u].succs if x is not None):
+                        latches.add(u)
+                        grew = True
+            conv = {u for u in body if any(el["k"] == "call" and el["e"].get("callee") in _CONVERT_CALLS for el in f.blocks[u].els)}
+            if not conv:
+                continue
+            n += 1
+            key = "fn=%s loop at line %s skips elements by kind only" % (f.name, (f.blocks[h].term or {}).get("ln", "?"))
+            bad = None
+            for u in sorted(body):
+                b2 = f.branch(u)
+                if not b2 or u == h or u in loops:      # the header of an inner loop leaves to the outer step when the inner list is exhausted
+                    continue
+                succs = f.blocks[u].succs
+                for k2 in (0, 1):
+                    v, other = succs[k2], succs[1 - k2]
+                    if v not in latches or other is None or other in latches:
+                        continue
+                    # does the sibling edge still reach a conversion inside this iteration?
+                    seen, work, hit = {other}, [other], False
+                    while work:
+                        x = work.pop()
+                        if x in conv:
+                            hit = True
+                            break
+                        for y in f.blocks[x].succs:
+                            if y is not None and y in body and y not in latches and y != h and y not in seen:
+                                seen.add(y)
+                                work.append(y)
+                    if not hit:
+                        continue
+                    for c3, p3 in atoms(b2[0], k2 == 0):
+                        txt = render(c3)
+                        op, l3, r3 = norm_cmp(c3, p3)
+                        l4 = strip(l3)
+                        okx = any(x in txt for x in ("ares_dns_rr_get_type", "ares_dns_rr_get_class"))
+                        if l4 is not None and l4.get("k") == "var" and l4["n"] in kindvars:
+                            okx = True
+                        if not okx and bad is None:
+                            bad = (u, txt)
+            if bad:
+                r.viol(key, f.name, f.loc((f.blocks[bad[0]].term or {}).get("ln", f.ln)), "%s passes over an element when '%s': the record API reports that element (an empty character-string is a value), so the "
+                       "legacy result has fewer entries than the record API" % (f.name, bad[1]))
+            else:
+                r.ok(key, f.loc((f.blocks[h].term or {}).get("ln", f.ln)))
+    r.info["counted_conversion_loops"] = n
+
+
 def r_nodata(prog, R):
     r = R.rule("R-C18-NODATA", "a legacy parser never reports success with nothing to hand out: where the result pointer is stored under a successful status it is known to be non-NULL "
                "(an answer section that holds records, but none of the parser's type -- a CNAME only -- gives the documented ARES_ENODATA, not ARES_SUCCESS with a NULL list)", floor=6,
@@ -545,6 +640,7 @@ def run(prog, R, tier):
     r_free(prog, R)
     r_keys(prog, R)
     r_fullscan(prog, R)
+    r_skip(prog, R)
     r_nodata(prog, R)
     # the hostent arrays the ns/ptr/a/aaaa parsers hand out: terminator slot reserved, filled without gaps (answer order, complete release)
     termrules.term_rule(prog, R, "R-C18-TERM", floor=4)
